@@ -342,6 +342,69 @@ static void spectrum_case(uint64_t N, int pat, int variant /*0 idft, 1 idft_tmp_
   case_end(N >= 2);
 }
 
+// hundreds of modules / tables of one size alive at the same time (a counter of users kept in a narrow type wraps), some
+// of them deleted, unrelated allocations made, and the survivors still transform exactly
+static void many_live_case(uint64_t N, unsigned count, unsigned rep) {
+  if (!case_begin("ntt120 modules|hundreds alive at once, some deleted", "N=%" PRIu64 " count=%u rep=%u", N, count, rep)) return;
+  rng_t* r = crng();
+  MODULE** mods = calloc(count, sizeof *mods);
+  q120_ntt_precomp** tf = calloc(count, sizeof *tf);
+  q120_ntt_precomp** ti = calloc(count, sizeof *ti);
+  for (unsigned i = 0; i < count; i++) {
+    mods[i] = new_module_info(N, NTT120);
+    if ((i & 3) == 0) {
+      tf[i] = q120_new_ntt_bb_precomp(N);
+      ti[i] = q120_new_intt_bb_precomp(N);
+    }
+  }
+  // delete (count mod 256) + 1 of them, spread out, then let the allocator reuse whatever was released
+  const unsigned ndel = count % 256 + 1 + (unsigned)(rng_u64(r) % 3);
+  for (unsigned k = 0; k < ndel; k++) {
+    const unsigned i = (unsigned)(rng_u64(r) % count);
+    if (mods[i]) { delete_module_info(mods[i]); mods[i] = 0; }
+    if (tf[i]) { q120_del_ntt_bb_precomp(tf[i]); q120_del_intt_bb_precomp(ti[i]); tf[i] = ti[i] = 0; }
+  }
+  void* junk[64];
+  for (int j = 0; j < 64; j++) {
+    junk[j] = malloc(16 + (size_t)(rng_u64(r) % (N * 40 + 64)));
+    memset(junk[j], 0xA7, 16);
+  }
+  int64_t* a = malloc(N * 8);
+  uint64_t* dft = malloc(N * 32 + 64);
+  __int128* big = malloc(N * 16 + 64);
+  uint64_t checked = 0, nbad = 0;
+  for (unsigned i = 0; i < count; i++) {
+    if (!mods[i]) continue;
+    for (uint64_t c = 0; c < N; c++) a[c] = (int64_t)rng_u64(r);
+    vec_znx_dft(mods[i], (VEC_ZNX_DFT*)dft, 1, a, 1, N);
+    vec_znx_idft_tmp_a(mods[i], (VEC_ZNX_BIG*)big, 1, (VEC_ZNX_DFT*)dft, 1);
+    for (uint64_t c = 0; c < N; c++)
+      if (big[c] != (__int128)a[c]) { nbad++; break; }
+    if (tf[i]) {
+      uint64_t x[4 * 64], y[4 * 64];
+      const uint64_t n = N > 64 ? 64 : N;  // the raw tables are checked through the round trip of a short prefix only when N <= 64
+      if (N <= 64) {
+        for (uint64_t c = 0; c < 4 * n; c++) x[c] = y[c] = rng_u64(r);
+        q120_ntt_bb_avx2(tf[i], (q120b*)x);
+        q120_intt_bb_avx2(ti[i], (q120b*)x);
+        for (uint64_t c = 0; c < 4 * n; c++)
+          if (x[c] % Q120[c & 3] != y[c] % Q120[c & 3]) { nbad++; break; }
+      }
+    }
+    checked++;
+  }
+  if (nbad) viol("oracle", "%" PRIu64 " of %" PRIu64 " NTT120 modules / tables that were alive together with %u others no longer invert their transform after %u of them were deleted (N=%" PRIu64 ")", nbad, checked, count, ndel, N);
+  for (unsigned i = 0; i < count; i++) {
+    if (mods[i]) delete_module_info(mods[i]);
+    if (tf[i]) { q120_del_ntt_bb_precomp(tf[i]); q120_del_intt_bb_precomp(ti[i]); }
+  }
+  for (int j = 0; j < 64; j++) free(junk[j]);
+  free(a); free(dft); free(big); free(mods); free(tf); free(ti);
+  cnt("modules_alive_together", count);
+  sample("%u modules alive at once, %u deleted, %" PRIu64 " survivors round-trip exactly", count, ndel, checked);
+  case_end(checked > 0);
+}
+
 void run_C03(void) {
   const int th = G.thorough;
   make_tables();
@@ -366,6 +429,10 @@ void run_C03(void) {
           module_case(N, as, ds, rs, (ctr + 1) % 4, 1, 0, 0);
           if ((ctr % 4) == 0) module_case(N, as, ds, rs, (ctr + 2) % 4, 0, 1, 0);
         }
+  }
+  {
+    static const unsigned CNT[] = {257, 300, 513, 70000};
+    for (size_t i = 0; i < (th ? 4u : 3u); i++) many_live_case(i == 3 ? 2 : (i & 1 ? 64 : 16), CNT[i], (unsigned)i);
   }
   // many limbs
   for (size_t ni = 0; ni < 6; ni++) {
